@@ -1488,7 +1488,12 @@ def _force_gather(self: Engine, st: State, g: CoroV) -> List[Res]:
                 for s2, r in self.force_lt(s, a[1]):
                     nxt.append((s2, r if isinstance(r, Exc) else acc.cat(r)))
             else:
+                # A-ASYNCIO M2: gather wraps each awaitable in a task that runs in a COPY of the caller's context: what
+                # it sets in a context variable is seen neither by its siblings nor by the caller afterwards
+                from pyvc import assumed
+                snap = assumed.ctx_snapshot(s)
                 for s2, r in self.await_value(s, a):
+                    assumed.ctx_restore(s2, snap)
                     nxt.append((s2, r if isinstance(r, Exc) else acc.cat(L.LT([L.Unit(r)]))))
         results = nxt
     out: List[Res] = []
